@@ -125,7 +125,7 @@ class Ctx:
         named = [k for k in call.keywords if k.arg is not None]
         cfg = cfg_of(M.V)
         problems = []
-        if len(call.args) != 1 or not self._is_graph(call.args[0]):
+        if len(call.args) != 1 or not self._is_graph(M.resolve(call.args[0])):
             problems.append(f"the first argument `{norm(call.args[0], 40) if call.args else ''}` is not the wrapped networkx graph")
         unsure_fw = None
         if not star:
@@ -203,8 +203,11 @@ class Ctx:
                 parts.append(f"{missing_c} are not removed from the options before the backend is called")
             if missing_s:
                 parts.append(f"{missing_s} are not handed to the backend")
-            if odd and not (extra_c or extra_s) and any("explicit keyword" in o for o in odd) and not missing_c:
-                self.unsure("C17.R5", "options", "; ".join(odd + parts), call)
+            from .c17_rules import remaining_helper_calls
+
+            hidden = remaining_helper_calls(self, about=lambda e: isinstance(e, ast.expr) and M.is_options(e))
+            if not (extra_c or extra_s) and (hidden or (odd and any("explicit keyword" in o for o in odd) and not missing_c)):
+                self.unsure("C17.R5", "options", "; ".join(odd + parts + ([f"`{norm(hidden[0], 50)}` receives the options but could not be flattened into draw()"] if hidden else [])), call)
             else:
                 self.bad("C17.R5", "options", "; ".join(parts) + ": other drawing options do not reach the backend unchanged", (consumed[extra_c[0]][0] if extra_c else call))
         elif odd:
@@ -325,6 +328,8 @@ class Ctx:
         bad = []
         for f in funcs:
             for w in E.writes(f):
+                if w.root_kind == "self" and f.name in ("__init__", "__post_init__") and f.cls is not None and f.cls is not self.draw.cls and not self.repo.is_subclass(self.draw.cls, f.cls.fq):
+                    continue  # initialisation of a helper object created during the call, not state that outlives it
                 if w.root_kind in ("self", "classvar", "global"):
                     bad.append(w)
         for w in bad:
